@@ -55,14 +55,41 @@ func c10EncResult(nodes []ir.Node, uid map[*ir.Instruction]int) string {
 	return strings.Join(parts, " ")
 }
 
-func c10Run(o *out, stats map[string]int, passName string, fn *ir.Function, p func(*ir.Function) error) {
-	uid := map[*ir.Instruction]int{}
-	for k, i := range fn.Instructions() {
-		uid[i] = k
+// c10NBRef reports whether some label defined in the function is the operand of a non-branch instruction
+// (CALL label): the inputs on which finding F10b (PruneDanglingLabels counts branch references only) can show.
+func c10NBRef(nodes []ir.Node) bool {
+	defined := map[string]bool{}
+	byOther := map[string]bool{}
+	for _, n := range nodes {
+		switch n := n.(type) {
+		case ir.Label:
+			defined[string(n)] = true
+		case *ir.Instruction:
+			if len(n.Operands) > 0 && !n.IsBranch {
+				if ref, ok := n.Operands[0].(operand.LabelRef); ok {
+					byOther[string(ref)] = true
+				}
+			}
+		}
 	}
-	req := c10Enc(fn.Nodes, uid)
-	before := len(fn.Nodes)
-	err, panicked := safely(func() error { return p(fn) })
+	for l := range byOther {
+		if defined[l] {
+			return true
+		}
+	}
+	return false
+}
+
+type c10Out struct {
+	o      *out // acceptor requests (judged: a mismatch is a concrete violation)
+	exact  *out // line-by-line comparison with the model passes (informational, see vlib/props/c10.py)
+	stats  map[string]int
+}
+
+// c10Judge emits the requests for one run of a pass: orig = the nodes before (with the operands the instructions
+// have NOW, i.e. after register binding for the `compile` stream), fn.Nodes = the nodes after.
+func (c *c10Out) judge(passName string, orig []ir.Node, uid map[*ir.Instruction]int, fn *ir.Function, err error, panicked bool) {
+	req := c10Enc(orig, uid)
 	resp := ""
 	switch {
 	case panicked:
@@ -72,13 +99,102 @@ func c10Run(o *out, stats map[string]int, passName string, fn *ir.Function, p fu
 	default:
 		resp = c10EncResult(fn.Nodes, uid)
 	}
-	if len(fn.Nodes) < before {
-		stats[passName+"_deleted"] += before - len(fn.Nodes)
+	stats := c.stats
+	if err == nil && len(fn.Nodes) < len(orig) {
 		stats[passName+"_changed"]++
+		kept := map[ir.Node]bool{}
+		for _, n := range fn.Nodes {
+			if i, ok := n.(*ir.Instruction); ok {
+				kept[i] = true
+			}
+		}
+		nl := 0
+		for _, n := range fn.Nodes {
+			if _, ok := n.(ir.Label); ok {
+				nl++
+			}
+		}
+		for _, n := range orig {
+			switch n := n.(type) {
+			case *ir.Instruction:
+				if !kept[n] {
+					stats[passName+"_deleted_instr"]++
+					stats["deleted_opcode:"+n.Opcode]++
+				}
+			case ir.Label:
+				nl--
+			}
+		}
+		stats[passName+"_deleted_labels"] -= nl
 	}
 	stats[passName]++
-	o.emit("cleanup "+passName+" "+req, resp)
-	o.emit("accept-cleanup "+passName+" "+req+" => "+resp, "ok")
+	nb := "nbref=0"
+	if c10NBRef(orig) {
+		nb = "nbref=1"
+		stats[passName+"_nbref"]++
+	}
+	c.exact.emit("cleanup "+passName+" "+req, resp)
+	c.o.emit("accept-cleanup "+passName+" "+nb+" "+req+" => "+resp, "ok")
+}
+
+func (c *c10Out) run(passName string, fn *ir.Function, p func(*ir.Function) error) {
+	uid := map[*ir.Instruction]int{}
+	for k, i := range fn.Instructions() {
+		uid[i] = k
+	}
+	orig := append([]ir.Node(nil), fn.Nodes...)
+	err, panicked := safely(func() error { return p(fn) })
+	c.judge(passName, orig, uid, fn, err, panicked)
+}
+
+// c10Decorate rebuilds fn with extra nodes that the shared generator never produces: `CALL label` (a non-branch
+// instruction carrying a label reference: to a label some branch uses too, to a label nothing else refers to, to an
+// undefined label), a conditional jump directly in front of its label, comments between a jump and its label.
+func c10Decorate(r *rng, fn *ir.Function, stats map[string]int) *ir.Function {
+	var labels []string
+	for _, n := range fn.Nodes {
+		if l, ok := n.(ir.Label); ok {
+			labels = append(labels, string(l))
+		}
+	}
+	out := ir.NewFunction("f")
+	ncall := 0
+	if r.chance(1, 2) {
+		ncall = 1 + r.intn(2)
+	}
+	callAt := map[int]bool{}
+	for k := 0; k < ncall; k++ {
+		callAt[r.intn(len(fn.Nodes)+1)] = true
+	}
+	addCall := func() {
+		l := "nowhere"
+		if len(labels) > 0 && !r.chance(1, 8) {
+			l = pick(r, labels)
+		}
+		if c, _ := x86.VerifBuild("CALL", nil, []operand.Op{operand.LabelRef(l)}); c != nil {
+			out.AddInstruction(c)
+			stats["call_label"]++
+		}
+	}
+	for k, n := range fn.Nodes {
+		if callAt[k] {
+			addCall()
+		}
+		if l, ok := n.(ir.Label); ok && r.chance(1, 10) {
+			if j, _ := x86.VerifBuild(pick(r, []string{"JNE", "JEQ", "JCS"}), nil, []operand.Op{operand.LabelRef(string(l))}); j != nil {
+				out.AddInstruction(j)
+				stats["jcc_before_label"]++
+				if r.chance(1, 4) {
+					out.AddComment("between")
+				}
+			}
+		}
+		out.AddNode(n)
+	}
+	if callAt[len(fn.Nodes)] {
+		addCall()
+	}
+	return out
 }
 
 // c10SelfMoveFunc builds a function full of register-to-register moves, many of them self-moves.
@@ -86,6 +202,7 @@ func c10SelfMoveFunc(r *rng) *ir.Function {
 	fn := ir.NewFunction("f")
 	gp := []reg.Register{reg.RAX, reg.RCX, reg.RBX, reg.RSI, reg.R9, reg.R13, reg.RBP}
 	n := 1 + r.intn(14)
+	var placed []string
 	for k := 0; k < n; k++ {
 		a := pick(r, gp)
 		b := a
@@ -123,7 +240,7 @@ func c10SelfMoveFunc(r *rng) *ir.Function {
 			if r.chance(1, 3) {
 				y = physVec(r.intn(4))
 			}
-			inst, _ = x86.VerifBuild(pick(r, []string{"MOVQ", "MOVOU", "MOVAPS", "MOVSD"}), nil, []operand.Op{x, y})
+			inst, _ = x86.VerifBuild(pick(r, []string{"MOVQ", "MOVQ", "MOVOU", "MOVAPS", "MOVUPD", "MOVSD", "VMOVDQU", "VMOVAPS"}), nil, []operand.Op{x, y})
 		case 6:
 			inst, _ = x86.VerifBuild("MOVQ", nil, []operand.Op{operand.Mem{Base: a}, a})
 		case 7:
@@ -135,9 +252,17 @@ func c10SelfMoveFunc(r *rng) *ir.Function {
 			inst, _ = x86.VerifBuild("NOP", nil, nil)
 		}
 		if r.chance(1, 6) {
-			fn.AddLabel(ir.Label(fmt.Sprintf("m%d", k)))
+			l := fmt.Sprintf("m%d", k)
+			fn.AddLabel(ir.Label(l))
+			placed = append(placed, l)
 		}
 		fn.AddInstruction(inst)
+		if len(placed) > 0 && r.chance(1, 8) {
+			// a backward branch: the deleted moves then sit inside loops and behind branch targets
+			if j, _ := x86.VerifBuild(pick(r, []string{"JNE", "JMP", "JCS"}), nil, []operand.Op{operand.LabelRef(pick(r, placed))}); j != nil {
+				fn.AddInstruction(j)
+			}
+		}
 	}
 	if r.chance(4, 5) {
 		ret, _ := x86.VerifBuild("RET", nil, nil)
@@ -161,25 +286,220 @@ func init() {
 			return err
 		}
 		defer o.close()
+		xf := *f
+		xops, ximpl := *f.ops+".exact", *f.impl+".exact"
+		xf.ops, xf.impl = &xops, &ximpl
+		xo, err := openOut(&xf)
+		if err != nil {
+			return err
+		}
+		defer xo.close()
 		r := newRng(*f.seed)
 		stats := map[string]int{}
+		c := &c10Out{o: o, exact: xo, stats: stats}
 		for k := 0; k < *f.n; k++ {
 			mk := func(rr *rng) *ir.Function {
 				cfg := genCfg{minInstr: 1, maxInstr: 3 + rr.intn(16), nGP: 2, physPct: 60, branchPct: 45,
-					malformed: rr.chance(1, 8), jumpBeforeLabelPct: 40, opcodes: []string{"NOP", "ADDQ", "MOVQ", "CALL"}}
-				return newFgen(rr, db, cfg).generate()
+					malformed: rr.chance(1, 8), jumpBeforeLabelPct: 40, opcodes: []string{"NOP", "ADDQ", "MOVQ"}}
+				fn := newFgen(rr, db, cfg).generate()
+				return c10Decorate(rr, fn, stats)
 			}
 			sub := r.fork()
 			seed := sub.s
-			c10Run(o, stats, "jumps", mk(&rng{s: seed}), pass.PruneJumpToFollowingLabel)
-			c10Run(o, stats, "labels", mk(&rng{s: seed}), pass.PruneDanglingLabels)
+			c.run("jumps", mk(&rng{s: seed}), pass.PruneJumpToFollowingLabel)
+			c.run("labels", mk(&rng{s: seed}), pass.PruneDanglingLabels)
 			// as in Compile: jumps, then labels on the result
 			fn := mk(&rng{s: seed})
 			if err, _ := safely(func() error { return pass.PruneJumpToFollowingLabel(fn) }); err == nil {
-				c10Run(o, stats, "labels", fn, pass.PruneDanglingLabels)
+				c.run("labels", fn, pass.PruneDanglingLabels)
 			}
-			c10Run(o, stats, "selfmoves", c10SelfMoveFunc(r.fork()), pass.PruneSelfMoves)
+			c.run("selfmoves", c10SelfMoveFunc(r.fork()), pass.PruneSelfMoves)
+		}
+		// every node sequence up to length 4 over a small alphabet, through the two label passes and their composition
+		enumLen := 4
+		if *f.tier == "thorough" {
+			enumLen = 5
+		}
+		alphabet := c09Syms("La", "Lb", "C", "NOP", "RET", "JMPa", "JNEa", "JMPb", "CALLa")
+		for _, pn := range []string{"jumps", "labels", "jumps+labels"} {
+			pn := pn
+			c09Enumerate(alphabet, 0, enumLen, func(fn *ir.Function) {
+				stats["enum"]++
+				switch pn {
+				case "jumps":
+					c.run("jumps", fn, pass.PruneJumpToFollowingLabel)
+				case "labels":
+					c.run("labels", fn, pass.PruneDanglingLabels)
+				default:
+					c.run("compile", fn, func(fn *ir.Function) error {
+						if err := pass.PruneJumpToFollowingLabel(fn); err != nil {
+							return err
+						}
+						return pass.PruneDanglingLabels(fn)
+					})
+				}
+			})
+		}
+		// whole pipeline: functions over virtual registers through the real pass.Compile; the allocator decides which
+		// moves become self-moves
+		for k := 0; k < *f.n; k++ {
+			c10Compile(c, r.fork())
+		}
+		stats["build_failed"] = 0
+		for _, n := range c09BuildFailed {
+			stats["build_failed"] += n
 		}
 		return writeJSON(*f.stats, stats)
 	})
+}
+
+// c10Compile builds a function over a few virtual and physical registers and runs the REAL pass.Compile on it.
+// The request carries the original node list with the operands AFTER register binding (the instructions are bound
+// in place before PruneSelfMoves runs), so the acceptor judges the deleted moves on the registers the allocator chose.
+func c10Compile(c *c10Out, r *rng) {
+	stats := c.stats
+	col := reg.NewCollection()
+	nv := 2 + r.intn(3)
+	var vs []reg.GPVirtual
+	for k := 0; k < nv; k++ {
+		vs = append(vs, col.GP64())
+	}
+	fn := ir.NewFunction("f")
+	n := 2 + r.intn(14)
+	nl := r.intn(1 + n/3)
+	labelAt := map[int][]string{}
+	var labels []string
+	for k := 0; k < nl; k++ {
+		l := fmt.Sprintf("c%d", k)
+		labels = append(labels, l)
+		p := r.intn(n)
+		labelAt[p] = append(labelAt[p], l)
+	}
+	view := func(v reg.GPVirtual, s reg.Spec) reg.Register {
+		switch s {
+		case reg.S8L:
+			return v.As8L()
+		case reg.S16:
+			return v.As16()
+		case reg.S32:
+			return v.As32()
+		}
+		return v.As64()
+	}
+	add := func(opc string, ops ...operand.Op) {
+		inst, err := x86.VerifBuild(opc, nil, ops)
+		if err != nil || inst == nil {
+			c09BuildFailed[opc]++
+			return
+		}
+		fn.AddInstruction(inst)
+	}
+	// define every virtual first so that the moves below copy defined values
+	for _, v := range vs {
+		add("MOVQ", operand.U64(uint64(1+r.intn(1000))), v)
+	}
+	for i := 0; i < n; i++ {
+		for _, l := range labelAt[i] {
+			if r.chance(1, 3) {
+				add("JMP", operand.LabelRef(l)) // a jump to the label that follows
+			}
+			if r.chance(1, 6) {
+				fn.AddComment("c")
+			}
+			fn.AddLabel(ir.Label(l))
+		}
+		a, b := pick(r, vs), pick(r, vs)
+		switch x := r.intn(100); {
+		case x < 15:
+			// a value moved between two short-lived virtuals that never interfere: the allocator tends to give
+			// them the same register, which turns the move into a self-move (32-bit ones must then be kept)
+			va, vb := col.GP64(), col.GP64()
+			spec := pick(r, []reg.Spec{reg.S64, reg.S64, reg.S32, reg.S32, reg.S16, reg.S8L})
+			opc := map[reg.Spec]string{reg.S64: "MOVQ", reg.S32: "MOVL", reg.S16: "MOVW", reg.S8L: "MOVB"}[spec]
+			add("MOVQ", operand.U64(uint64(1+r.intn(1000))), va)
+			if spec == reg.S16 || spec == reg.S8L {
+				add("MOVQ", operand.U64(3), vb) // partial write below: define the rest first
+			}
+			add(opc, view(va, spec), view(vb, spec))
+			add("ADDQ", vb, pick(r, []reg.Register{reg.RAX, reg.RCX}))
+			stats["compile_virtual_moves"]++
+		case x < 40:
+			spec := pick(r, []reg.Spec{reg.S64, reg.S64, reg.S64, reg.S32, reg.S16, reg.S8L})
+			opc := map[reg.Spec]string{reg.S64: "MOVQ", reg.S32: "MOVL", reg.S16: "MOVW", reg.S8L: "MOVB"}[spec]
+			add(opc, view(a, spec), view(b, spec))
+			stats["compile_virtual_moves"]++
+		case x < 50:
+			add("ADDQ", a, b)
+		case x < 56:
+			add("MOVQ", a, pick(r, []reg.Register{reg.RAX, reg.RCX, reg.R9}))
+		case x < 60:
+			p := pick(r, []reg.GPPhysical{reg.RAX, reg.RBX, reg.R13})
+			add("MOVQ", p, p) // an author-written self-move
+		case x < 75 && len(labels) > 0:
+			add(pick(r, []string{"JNE", "JEQ", "JMP"}), operand.LabelRef(pick(r, labels)))
+		case x < 80 && len(labels) > 0:
+			add("CALL", operand.LabelRef(pick(r, labels)))
+			stats["call_label"]++
+		case x < 85:
+			add("MOVQ", operand.U64(7), a)
+		default:
+			add("NOP")
+		}
+	}
+	// keep every virtual alive to the end in half of the functions (then no two of them share a register)
+	if r.chance(1, 2) {
+		for _, v := range vs {
+			add("ADDQ", v, reg.RAX)
+		}
+	}
+	add("RET")
+	uid := map[*ir.Instruction]int{}
+	for k, i := range fn.Instructions() {
+		uid[i] = k
+	}
+	orig := append([]ir.Node(nil), fn.Nodes...)
+	// moves between two DIFFERENT virtual registers: only the allocator can turn them into self-moves
+	virtMove := map[*ir.Instruction]bool{}
+	for _, i := range fn.Instructions() {
+		if len(i.Operands) == 2 && strings.HasPrefix(i.Opcode, "MOV") {
+			a, ok1 := i.Operands[0].(reg.Virtual)
+			b, ok2 := i.Operands[1].(reg.Virtual)
+			if ok1 && ok2 && a.ID() != b.ID() {
+				virtMove[i] = true
+			}
+		}
+	}
+	file := ir.NewFile()
+	file.AddSection(fn)
+	err, panicked := safely(func() error { return pass.Compile.Execute(file) })
+	if err != nil && !panicked {
+		// a function the pipeline rejects is not an output to judge; the check has a floor on the accepted ones
+		stats["compile_rejected"]++
+		return
+	}
+	for _, n := range orig {
+		if i, ok := n.(*ir.Instruction); ok {
+			for _, op := range i.Operands {
+				if rr, ok := op.(reg.Register); ok {
+					if _, virt := rr.(reg.Virtual); virt {
+						stats["compile_unbound_operand"]++
+					}
+				}
+			}
+		}
+	}
+	if err == nil {
+		kept := map[*ir.Instruction]bool{}
+		for _, i := range fn.Instructions() {
+			kept[i] = true
+		}
+		for i := range virtMove {
+			if !kept[i] {
+				stats["compile_deleted_allocator_selfmoves"]++
+			} else if len(i.Operands) == 2 && i.Operands[0] == i.Operands[1] {
+				stats["compile_kept_allocator_selfmoves:"+i.Opcode]++
+			}
+		}
+	}
+	c.judge("compile", orig, uid, fn, err, panicked)
 }
